@@ -108,8 +108,15 @@ class Driver {
       custom_ids = false;
       force_ctor = true;
     }
+#ifdef PMH_COPY_OPS
+    if (kRep && !kChain) custom_ids = false;  // cycle entries of the RU flavour are positions: keep ids == positions
+#endif
     construct();
     if (force_ctor) no_insert = true;
+#ifdef PMH_COPY_OPS
+    run_pool();
+    return;
+#endif
     history();
     finalise_and_check(true);
 #ifdef PMH_CHECK_CYCLES
@@ -136,6 +143,7 @@ class Driver {
   unsigned removals = 0, insertions = 0, checks_done = 0;
   bool cycles_requested = false;
   bool big_cycle_and_chain = false;
+  bool quiet_checks = false;  // copy-ops mode: every live object is checked after every step, do not render each check
   bool no_insert = false;   // no (further) insert_boundary calls: a known finding or a domain restriction forbids them
   bool force_ctor = false;  // build through the constructor-from-boundaries only
   size_t traced = 0;
@@ -265,7 +273,7 @@ class Driver {
 
   // describe() before the library call (so that a crashing call is visible in the trace), commit() after it
   void describe(const ref::Cell& c, unsigned id, const std::string& name, const char* how) {
-    ctx.desc << "  [" << cells.size() << "] " << how << " id=" << id << " dim=" << c.dim << " " << name << " bdry={";
+    ctx.desc << "  " << slot_tag() << "[" << cells.size() << "] " << how << " id=" << id << " dim=" << c.dim << " " << name << " bdry={";
     for (size_t k = 0; k < c.bdry.size(); ++k) {
       ctx.desc << (k ? " " : "") << ids[size_t(c.bdry[k].first)];
       if (!kZ2 || c.bdry[k].second != 1) ctx.desc << "*" << c.bdry[k].second;
@@ -388,7 +396,7 @@ class Driver {
           return false;
         }
       }
-      ctx.desc << "  remove_last (position " << cells.size() - 1 << ", id " << ids.back() << ")\n";
+      ctx.desc << "  " << slot_tag() << "remove_last (position " << cells.size() - 1 << ", id " << ids.back() << ")\n";
       trace();
       m->remove_last();
       cells.pop_back();
@@ -416,6 +424,392 @@ class Driver {
     }
     return false;
   }
+
+#ifdef PMH_COPY_OPS
+  // ------------------------------------------------------------------------------------------- C15 (matrix part)
+  // A pool of up to 3 (Matrix, model state) pairs. The members (m, cells, ids, gen, ...) are the pair currently
+  // "checked out" of pool[cur], so that insert_one / remove_one / the checks work on it unchanged. Pool operations:
+  // copy construction, copy assignment (also self and onto a non-empty or moved-from matrix), move construction, move
+  // assignment, the friend swap, destruction. After every step every live object passes the full C05 check against its
+  // own model; copies are additionally compared with their source (representative cycles where available).
+  enum SlotState { FREE = 0, LIVE = 1, MOVED = 2 };
+  struct Slot {
+    SlotState state = FREE;
+    std::unique_ptr<M> m;
+    std::vector<ref::Cell> cells;
+    std::vector<unsigned> ids;
+    std::vector<std::string> names;
+    std::vector<unsigned> ins_rank;
+    ref::CellGen gen;
+    bool barcode_called = false, no_insert = false, cycles_requested = false;
+    unsigned high_id = 0, removals = 0, insertions = 0;
+    int pair = -1;  // id of the last copy / move / swap relation this object took part in
+    bool frozen = false;  // known finding C15-pairing-copy-shares-bars: no modification after a copy relation
+  };
+  // known findings of the copy / move operations (ids of property C15)
+  static constexpr bool kBarIterators =
+      O::has_removable_columns && (kChain || (O::is_of_boundary_type && O::has_vine_update));
+  bool moves_excluded() {
+    if (kChain && kIdIdx && ctx.excluded("C15-chain-identifier-move-id-map")) {
+      ctx.hit("excluded:C15-chain-identifier-move-id-map");
+      return true;
+    }
+    if (kRU && !kZ2 && ctx.excluded("C15-ru-zp-moved-from-destructor")) {
+      ctx.hit("excluded:C15-ru-zp-moved-from-destructor");
+      return true;
+    }
+    return false;
+  }
+  // the bar dictionaries of these flavours hold iterators of the source's bar list after a copy: any later change of
+  // either object corrupts the other one. While the finding is known, source and copy are not modified any more.
+  void freeze_after_copy(unsigned a, unsigned b) {
+    // (a self-assignment goes through a temporary copy too: the object then refers to the bars of the temporary)
+    if (kBarIterators && !pool[a].cells.empty() && ctx.excluded("C15-pairing-copy-shares-bars")) {
+      ctx.hit("excluded:C15-pairing-copy-shares-bars");
+      pool[a].frozen = pool[b].frozen = true;
+    }
+  }
+  struct Relation {
+    bool big = false, diverged = false;
+  };
+  static const unsigned POOL = 3;
+  Slot pool[POOL];
+  unsigned cur = 0;
+  bool out = false;
+  std::map<int, Relation> relations;
+  int next_relation = 0;
+  bool nt_copy = false;
+
+  std::string slot_tag() const { return "#" + std::to_string(cur) + " "; }
+
+  void exchange(Slot& s) {
+    std::swap(s.m, m);
+    s.cells.swap(cells);
+    s.ids.swap(ids);
+    s.names.swap(names);
+    s.ins_rank.swap(ins_rank);
+    std::swap(s.gen, gen);
+    std::swap(s.barcode_called, barcode_called);
+    std::swap(s.no_insert, no_insert);
+    std::swap(s.cycles_requested, cycles_requested);
+    std::swap(s.high_id, high_id);
+    std::swap(s.removals, removals);
+    std::swap(s.insertions, insertions);
+  }
+  void checkin() {
+    if (!out) return;
+    exchange(pool[cur]);
+    out = false;
+  }
+  void checkout(unsigned i) {
+    checkin();
+    cur = i;
+    exchange(pool[i]);
+    out = true;
+  }
+  static void copy_model(Slot& dst, const Slot& src) {
+    dst.cells = src.cells;
+    dst.ids = src.ids;
+    dst.names = src.names;
+    dst.ins_rank = src.ins_rank;
+    dst.gen = src.gen;
+    dst.barcode_called = src.barcode_called;
+    dst.no_insert = src.no_insert;
+    dst.cycles_requested = src.cycles_requested;
+    dst.high_id = src.high_id;
+    dst.removals = src.removals;
+    dst.insertions = src.insertions;
+  }
+  static void move_model(Slot& dst, Slot& src) {
+    copy_model(dst, src);
+    Slot empty;
+    copy_model(src, empty);
+  }
+  std::vector<unsigned> slots_in(SlotState a, SlotState b) const {
+    std::vector<unsigned> v;
+    for (unsigned i = 0; i < POOL; ++i)
+      if (pool[i].state == a || pool[i].state == b) v.push_back(i);
+    return v;
+  }
+  void relate(unsigned a, unsigned b) {
+    int id = next_relation++;
+    relations[id].big = a != b && pool[a].cells.size() >= 5;
+    pool[a].pair = id;
+    if (b != a) pool[b].pair = id;
+    if (relations[id].big) ctx.hit("copy-of-5+-cells");
+  }
+
+  // the full C05 check of the checked-out object (R-only matrices before their barcode: plain copies of the boundaries)
+  void check_object() {
+    if (kBnd && !barcode_called)
+      check_unreduced();
+    else
+      full_check();
+    if constexpr (kRep && kZ2) {
+      // representative cycles (defects of C08 are repaired in the tree): closed chains born with their bar
+      ref::Reduction r = ref::reduce(cells, p);
+      auto pos = id_to_pos();
+      m->update_representative_cycles();
+      for (const auto& bar : m->get_current_barcode()) {
+        SVec z;
+        for (unsigned e : m->get_representative_cycle(bar)) {
+          auto it = pos.find(e);
+          VF_CHECK(it != pos.end(), "cycle_unknown_cell", "object #" << cur << " bar birth " << bar.birth << " entry " << e);
+          if (!z.insert({it->second, 1}).second) z.erase(it->second);
+        }
+        VF_CHECK(!z.empty() && ref::low(z) == int(bar.birth) && ref::boundary_of(z, r.B, p).empty(), "cycle_invalid",
+                 "object #" << cur << " bar (" << bar.dim << ":" << bar.birth << ") cycle " << show(z));
+      }
+    }
+  }
+  void check_all_live(const char* why) {
+    for (unsigned i = 0; i < POOL; ++i) {
+      if (pool[i].state != LIVE) continue;
+      checkout(i);
+      try {
+        check_object();
+      } catch (const vf::Violation& v) {
+        throw vf::Violation(v.tag, std::string("object #") + std::to_string(i) + " (checked after " + why + "): " + v.msg);
+      }
+      checkin();
+    }
+  }
+  // barcode + representative cycles of the object in slot i in a canonical form (to compare a copy with its source)
+  std::vector<std::vector<long>> snapshot(unsigned i) {
+    std::vector<std::vector<long>> out_;
+    Slot& s = pool[i];
+    if (kBnd && !s.barcode_called) return out_;  // asking an R-only matrix for its barcode finalises it
+    if constexpr (kRep) s.m->update_representative_cycles();
+    for (const auto& bar : s.m->get_current_barcode()) {
+      std::vector<long> row = {long(bar.dim), long(bar.birth), bar.death == M::Bar::inf ? -1L : long(bar.death)};
+      if constexpr (kRep) {
+        std::vector<long> c;
+        for (auto e : s.m->get_representative_cycle(bar)) c.push_back(long(e));
+        std::sort(c.begin(), c.end());
+        row.insert(row.end(), c.begin(), c.end());
+      }
+      out_.push_back(row);
+    }
+    std::sort(out_.begin(), out_.end());
+    return out_;
+  }
+  void check_moved_from(unsigned i) {
+    // Matrix(Matrix&&): "After the move, the given matrix will be empty."
+    unsigned n = unsigned(pool[i].m->get_number_of_columns());
+    VF_CHECK(n == 0, "moved_from_not_empty", "moved-from matrix #" << i << " reports " << n << " columns");
+  }
+
+  // one ordinary operation on the checked-out object
+  void pool_step() {
+    const size_t kMaxCells = 24;
+    unsigned op = unsigned(t.weighted({12, 4, 1}));
+    if (op == 0) {
+      if (no_insert || (kBnd && barcode_called) || cells.size() >= kMaxCells) {
+        ctx.desc << "  " << slot_tag() << "(no insertion possible)\n";
+        return;
+      }
+      unsigned k = 1 + unsigned(t.weighted({4, 3, 2, 1}));
+      for (unsigned j = 0; j < k && cells.size() < kMaxCells; ++j)
+        if (!insert_one()) break;
+    } else if (op == 1) {
+      if constexpr (kRem) {
+        unsigned k = 1 + unsigned(t.weighted({5, 2, 1}));
+        for (unsigned j = 0; j < k && !cells.empty(); ++j)
+          if (!remove_one()) break;
+      }
+    } else {
+      if (kBnd && !barcode_called) {
+        ctx.desc << "  " << slot_tag() << "get_current_barcode (matrix complete, removals follow)\n";
+        trace();
+        barcode_called = true;
+      }
+    }
+  }
+
+  void pool_op(unsigned src) {
+    std::vector<unsigned> freeS = slots_in(FREE, FREE), targets = slots_in(LIVE, MOVED);
+    unsigned what = t.below(7);
+    auto skip = [&](const char* why) { ctx.desc << "  (pool op skipped: " << why << ")\n"; };
+    switch (what) {
+      case 0:
+      case 6: {  // copy construction
+        if (freeS.empty()) return skip("no free slot");
+        unsigned f = freeS[0];
+        ctx.desc << "  #" << f << " = Matrix(copy of #" << src << ")\n";
+        trace();
+        pool[f].m.reset(new M(*pool[src].m));
+        copy_model(pool[f], pool[src]);
+        pool[f].state = LIVE;
+        pool[f].frozen = pool[src].frozen;
+        relate(src, f);
+        freeze_after_copy(src, f);
+        ctx.hit("op:copy_construct");
+        VF_CHECK(snapshot(f) == snapshot(src), "copy_differs", "copy-constructed #" << f << " and its source #" << src
+                                                                   << " report different barcodes / cycles");
+        break;
+      }
+      case 1: {  // copy assignment, also self and onto a non-empty or moved-from matrix
+        unsigned d = targets[t.below(uint32_t(targets.size()))];
+        ctx.desc << "  #" << d << " = #" << src << " (copy assignment" << (d == src ? ", self" : "")
+                 << (pool[d].state == MOVED ? ", onto moved-from" : "") << ")\n";
+        trace();
+        *pool[d].m = *pool[src].m;
+        if (d != src) {
+          copy_model(pool[d], pool[src]);
+          pool[d].state = LIVE;
+          pool[d].frozen = pool[src].frozen;
+          relate(src, d);
+          freeze_after_copy(src, d);
+          VF_CHECK(snapshot(d) == snapshot(src), "copy_differs", "copy-assigned #" << d << " and its source #" << src
+                                                                     << " report different barcodes / cycles");
+        }
+        if (d == src) freeze_after_copy(src, src);
+        ctx.hit(d == src ? "op:self_assign" : "op:copy_assign");
+        break;
+      }
+      case 2: {  // move construction
+        if (freeS.empty()) return skip("no free slot");
+        if (moves_excluded()) return skip("known finding");
+        unsigned f = freeS[0];
+        ctx.desc << "  #" << f << " = Matrix(move of #" << src << ")\n";
+        trace();
+        auto before = snapshot(src);
+        pool[f].m.reset(new M(std::move(*pool[src].m)));
+        move_model(pool[f], pool[src]);
+        pool[f].frozen = pool[src].frozen;
+        pool[src].frozen = false;
+        pool[f].state = LIVE;
+        pool[src].state = MOVED;
+        relate(f, f);
+        check_moved_from(src);
+        VF_CHECK(snapshot(f) == before, "move_differs", "move-constructed #" << f << " differs from what #" << src << " reported");
+        ctx.hit("op:move_construct");
+        break;
+      }
+      case 3: {  // move assignment
+        std::vector<unsigned> cand;
+        for (unsigned d : targets)
+          if (d != src) cand.push_back(d);
+        if (cand.empty()) return skip("no other object");
+        if (moves_excluded()) return skip("known finding");
+        unsigned d = cand[t.below(uint32_t(cand.size()))];
+        ctx.desc << "  #" << d << " = move of #" << src << (pool[d].state == MOVED ? " (onto moved-from)" : "") << "\n";
+        trace();
+        auto before = snapshot(src);
+        *pool[d].m = std::move(*pool[src].m);
+        move_model(pool[d], pool[src]);
+        pool[d].frozen = pool[src].frozen;
+        pool[src].frozen = false;
+        pool[d].state = LIVE;
+        pool[src].state = MOVED;
+        relate(d, d);
+        check_moved_from(src);
+        VF_CHECK(snapshot(d) == before, "move_differs", "move-assigned #" << d << " differs from what #" << src << " reported");
+        ctx.hit("op:move_assign");
+        break;
+      }
+      case 4: {  // friend swap
+        std::vector<unsigned> cand;
+        for (unsigned d : slots_in(LIVE, LIVE))
+          if (d != src) cand.push_back(d);
+        if (cand.empty()) return skip("no other live object");
+        unsigned d = cand[t.below(uint32_t(cand.size()))];
+        ctx.desc << "  swap(#" << src << ", #" << d << ")\n";
+        trace();
+        swap(*pool[src].m, *pool[d].m);
+        {
+          Slot tmp;
+          copy_model(tmp, pool[src]);
+          copy_model(pool[src], pool[d]);
+          copy_model(pool[d], tmp);
+          std::swap(pool[src].frozen, pool[d].frozen);
+        }
+        relate(src, d);
+        relations[pool[src].pair].big = false;  // a swap is no copy relation
+        ctx.hit("op:swap");
+        break;
+      }
+      default: {  // destruction (never of the last live object)
+        if (slots_in(LIVE, LIVE).size() < 2) return skip("last live object");
+        ctx.desc << "  destroy #" << src << "\n";
+        trace();
+        pool[src].m.reset();
+        Slot empty;
+        copy_model(pool[src], empty);
+        pool[src].state = FREE;
+        pool[src].pair = -1;
+        pool[src].frozen = false;
+        ctx.hit("op:destroy");
+        break;
+      }
+    }
+  }
+
+  void run_pool() {
+    quiet_checks = true;
+    pool[0].state = LIVE;
+    cur = 0;
+    out = true;
+    checkin();
+    const unsigned kMaxSteps = 70;
+    unsigned steps = 0;
+    while (!t.exhausted() && steps < kMaxSteps) {
+      ++steps;
+      unsigned b = t.u8();
+      std::vector<unsigned> live = slots_in(LIVE, LIVE);
+      unsigned s = live[(b & 3) % live.size()];
+      unsigned kind = (b >> 2) & 7;
+      if (kind <= 4 && pool[s].frozen) {
+        ctx.desc << "  #" << s << " (not modified: known finding C15-pairing-copy-shares-bars)\n";
+      } else if (kind <= 4) {
+        checkout(s);
+        unsigned ins0 = insertions, rem0 = removals;
+        bool bc0 = barcode_called;
+        pool_step();
+        bool changed = ins0 != insertions || rem0 != removals || bc0 != barcode_called;
+        checkin();
+        if (changed && pool[s].pair >= 0 && !relations[pool[s].pair].diverged) {
+          relations[pool[s].pair].diverged = true;
+          ctx.hit("related-objects-diverged");
+          if (relations[pool[s].pair].big) nt_copy = true;
+        }
+      } else {
+        pool_op(s);
+        // moved-from objects may only be assigned to or destroyed; destroy them by the tape sometimes
+        for (unsigned i : slots_in(MOVED, MOVED))
+          if (t.chance(1, 4)) {
+            ctx.desc << "  destroy #" << i << " (moved-from)\n";
+            pool[i].m.reset();
+            pool[i].state = FREE;
+            pool[i].pair = -1;
+            pool[i].frozen = false;
+          }
+      }
+      check_all_live("a step");
+    }
+    // R-only matrices: ask every live object for its barcode at the end, then the full check
+    for (unsigned i : slots_in(LIVE, LIVE)) {
+      checkout(i);
+      if (kBnd && !barcode_called) {
+        ctx.desc << "  " << slot_tag() << "get_current_barcode (matrix complete)\n";
+        barcode_called = true;
+      }
+      checkin();
+    }
+    check_all_live("the end");
+    // destroy in a tape-independent order, checking the survivors after each destruction
+    for (unsigned i = 0; i < POOL; ++i) {
+      if (pool[i].state == FREE) continue;
+      pool[i].m.reset();
+      pool[i].state = FREE;
+      check_all_live("a destruction");
+    }
+    ctx.hit("steps", steps);
+    if (nt_copy) ctx.mark_nontrivial();
+  }
+#else
+  std::string slot_tag() const { return ""; }
+#endif
 
   // ---------------------------------------------------------------------------------------------- history
   void history() {
@@ -462,7 +856,7 @@ class Driver {
 
   void finalise_and_check(bool last) {
     if (kBnd && !barcode_called) {
-      ctx.desc << "  get_current_barcode (matrix complete" << (last ? "" : ", removals follow") << ")\n";
+      ctx.desc << "  " << slot_tag() << "get_current_barcode (matrix complete" << (last ? "" : ", removals follow") << ")\n";
       barcode_called = true;
       if (!last) ctx.hit("R-only:barcode-then-removals");
     }
@@ -508,7 +902,7 @@ class Driver {
 
   void check_barcode_only() {
     ref::Reduction r = reference();
-    ctx.desc << "  check barcode (" << cells.size() << " cells)\n";
+    if (!quiet_checks) ctx.desc << "  check barcode (" << cells.size() << " cells)\n";
     trace();
     compare_barcode(r);
   }
@@ -530,7 +924,7 @@ class Driver {
 
   // R-only matrix before the barcode was requested: the columns are documented to be plain copies of the boundaries
   void check_unreduced() {
-    ctx.desc << "  check (unreduced, " << cells.size() << " cells)\n";
+    if (!quiet_checks) ctx.desc << "  check (unreduced, " << cells.size() << " cells)\n";
     trace();
 #ifndef PMH_CHECK_CYCLES
     check_dimensions();
@@ -546,7 +940,7 @@ class Driver {
 
   void full_check() {
     ref::Reduction r = reference();
-    ctx.desc << "  check (" << cells.size() << " cells)\n";
+    if (!quiet_checks) ctx.desc << "  check (" << cells.size() << " cells)\n";
     trace();
     compare_barcode(r);
 #ifndef PMH_CHECK_CYCLES
